@@ -86,6 +86,9 @@ func (g *egSpec) renderPart(p *egPart) string {
 		s = "(?= " + strings.Join(ps, " & ") + ")"
 	case "mark":
 		s = ".m" + fmt.Sprint(p.Sym)
+		if p.Sym == 99 {
+			s = ".recoveryScope" // the marker error recovery knows about (C19)
+		}
 	case "cmd":
 		s = "{ _ = 0 }"
 		if egCmdText != nil {
